@@ -219,6 +219,10 @@ impl RunCtx {
 }
 
 thread_local! {
+    /// what "somebody else" does while a thread of the code under test sleeps in `std::thread::sleep()` (the thread-sleep
+    /// seam): run by the sleeping thread itself inside the seam, i.e. atomically with respect to that thread -- exactly what a
+    /// sleeping thread can observe of another thread's action. `(countdown, action)`: executed at the countdown-th sleep
+    pub static ON_THREAD_SLEEP: RefCell<Option<(u32, Box<dyn FnOnce()>)>> = const { RefCell::new(None) };
     pub static CTX: RefCell<Option<RunCtx>> = const { RefCell::new(None) };
     pub static LAST_PANIC: RefCell<Option<String>> = const { RefCell::new(None) };
 }
@@ -694,10 +698,33 @@ fn hook_thread_sleep(d: Duration) -> bool {
             true
         }
         Some(Mode::Threads) => {
+            let action = ON_THREAD_SLEEP.with(|a| {
+                let mut a = a.borrow_mut();
+                match a.as_mut() {
+                    Some((n, _)) if *n > 1 => {
+                        *n -= 1;
+                        None
+                    }
+                    Some(_) => a.take().map(|(_, f)| f),
+                    None => None,
+                }
+            });
+            if let Some(f) = action {
+                f();
+            }
             hook_spin_hint(Location::caller());
             true
         }
     }
+}
+
+/// see `ON_THREAD_SLEEP`
+pub fn set_thread_sleep_action(nth: u32, f: Box<dyn FnOnce()>) {
+    ON_THREAD_SLEEP.with(|a| *a.borrow_mut() = Some((nth.max(1), f)));
+}
+
+pub fn clear_thread_sleep_action() -> bool {
+    ON_THREAD_SLEEP.with(|a| a.borrow_mut().take().is_some())
 }
 
 fn hook_metric_origin() -> u32 {
